@@ -92,6 +92,8 @@ def units(tier, seed):
             u.append([{"n": n, "rhs": rhs}])
     for n in NS:
         u.append([{"nadrop": True, "n": n}])
+    u.append([{"n": 1500, "rhs": "x"}])  # more than a thousand rows
+    u.append([{"n": 1203, "rhs": "f + (1|g)"}])
     for n in (1, 2):  # frames with a single row / two rows
         for rhs in ("x", "0 + x", "1", "x + z"):
             u.append([{"n": n, "rhs": rhs}])
